@@ -154,7 +154,10 @@ class GaussianLikelihood(Likelihood):
         self.n_data = self.y.size
         self.inv_sigma = 1.0 / self.sigma
         self.inv_sigma_sqr = self.inv_sigma**2
-        self.normalisation = -log(self.sigma).sum() - 0.5 * log(2 * pi) * self.n_data
+        # sigma keeps the dtype it was given with, and numpy evaluates the log of an 8-bit
+        # (16-bit) integer array in half (single) precision, so convert to float first
+        log_sigma = log(self.sigma.astype(float))
+        self.normalisation = -log_sigma.sum() - 0.5 * log(2 * pi) * self.n_data
 
     def _log_likelihood(self, predictions: ndarray) -> float:
         z = (self.y - predictions) * self.inv_sigma
